@@ -212,6 +212,7 @@ func Parse(input string) (*Tree, error) {
 
 // Parse begins parsing, returning an error, if any.
 func (t *Tree) Parse() error {
+	defer verifEvent("parse.ret", t.lex, "")
 	go t.lex.tokenize()
 	for {
 		n, err := t.parse()
